@@ -60,6 +60,11 @@ def lattice_cases(thorough):
         # class of the data
         for setting in E1.deviations(space, 2):
             yield {"kind": "lattice", "fn": fn, "setting": dict(setting, data="vector")}
+    # what is actually drawn (plot=True): the colour limits that reach matplotlib are the ones requested, for each rendering mode
+    for mode in ("image", "contourf", "contour", "stream-coloured"):
+        for vmin in ("neither", "layer", "call", "both"):
+            for vmax in ("neither", "layer", "call", "both"):
+                yield {"kind": "rendered", "fn": "map", "setting": {"mode": mode, "vmin": vmin, "vmax": vmax}}
     # two layers in one call: an option of one layer must not leak into the other
     for fn in ("map", "histogram2d"):
         for bits in itertools.product([False, True], repeat=6):
@@ -178,6 +183,41 @@ def run_lattice(acc, idx, c):
         where = setting[opt]
         acc.violation(f"C19:{fn}:option-{opt}-set-at-{where}-not-honoured", idx, c, {"got": repr(got)[:200], "expected": repr(want)[:200]})
     return "ok" if not problems else "violation"
+
+
+def run_rendered(acc, idx, c):
+    import matplotlib.pyplot as plt
+    import osyris
+
+    st = c["setting"]
+    lkw, ckw = {}, {}
+    for o in ("vmin", "vmax"):
+        if st[o] in ("layer", "both"):
+            lkw[o] = LAYER_VAL[o]
+        if st[o] in ("call", "both"):
+            ckw[o] = CALL_VAL[o]
+    mesh = make_mesh()
+    if st["mode"] == "stream-coloured":
+        lay = mesh.layer("velocity", mode="stream", color=mesh["velocity"], **lkw)
+    else:
+        lay = mesh.layer("density", mode=None if st["mode"] == "image" else st["mode"], **lkw)
+    try:
+        with quiet(), warnings.catch_warnings(), np.errstate(all="ignore"):
+            warnings.simplefilter("ignore")
+            p = osyris.map(lay, direction="z", dx=1.0 * osyris.units("cm"), origin=osyris.Vector(0.5, 0.5, 0.5, unit="cm"), resolution=8, plot=True, **ckw)
+    except Exception as e:
+        acc.violation(f"C19:map-rendered-raised:{type(e).__name__}", idx, c, {"error": repr(e)[:200]})
+        return "raises"
+    finally:
+        plt.close("all")
+    norm = p.layers[0]["params"].get("norm")
+    out = "ok"
+    for o in ("vmin", "vmax"):
+        want = effective(dict(st, **{k: "neither" for k in OPTS if k not in st}), o, "map")
+        if want is not None and getattr(norm, o, "missing") != want:
+            acc.violation(f"C19:map:rendered:{o}-set-at-{st[o]}-not-drawn-with:{st['mode']}", idx, c, {"drawn_with": getattr(norm, o, "missing"), "requested": want})
+            out = "violation"
+    return out
 
 
 def run_two_layers(acc, idx, c):
@@ -354,7 +394,7 @@ def lattice_work(payload):
     acc = Acc()
     thorough = payload["tier"] == "thorough"
     for idx, c in my_share(lattice_cases(thorough), payload):
-        out = {"lattice": run_lattice, "two_layers": run_two_layers, "hist1d": run_hist1d, "layer_order": run_layer_order}[c["kind"]](acc, idx, c)
+        out = {"lattice": run_lattice, "two_layers": run_two_layers, "hist1d": run_hist1d, "layer_order": run_layer_order, "rendered": run_rendered}[c["kind"]](acc, idx, c)
         nset = sum(1 for v in c["setting"].values() if v not in ("neither", False, None))
         acc.case(nontrivial=nset > 0, outcome=out)
         if idx % 401 == 0:
@@ -561,8 +601,8 @@ def run(ctx):
 
 
 def replay_sigs(case):
-    if case.get("kind") in ("lattice", "hist1d", "two_layers", "layer_order"):
+    if case.get("kind") in ("lattice", "hist1d", "two_layers", "layer_order", "rendered"):
         acc = Acc()
-        {"lattice": run_lattice, "two_layers": run_two_layers, "hist1d": run_hist1d, "layer_order": run_layer_order}[case["kind"]](acc, 0, case)
+        {"lattice": run_lattice, "two_layers": run_two_layers, "hist1d": run_hist1d, "layer_order": run_layer_order, "rendered": run_rendered}[case["kind"]](acc, 0, case)
         return list(acc.violations.keys())
     return [s for s, _ in history.replay_case(case)]
